@@ -617,6 +617,9 @@ struct CompressedBlob {
     compression_ratio: f32,
     /// Entropy encoding algorithm used (if any)
     entropy_algorithm: EntropyAlgorithm,
+    /// Size of the dictionary-compressed data that was handed to the entropy stage
+    /// (= number of bytes the entropy decoder has to produce)
+    entropy_input_size: usize,
 }
 
 /// Main DictZipBlobStore implementation
@@ -1039,9 +1042,8 @@ impl DictZipBlobStore {
         }
     }
 
-    /// Apply Huffman O1 encoding with configured interleaving
-    fn apply_huffman_o1_encoding(&self, data: &[u8]) -> Result<Vec<u8>> {
-        // Ensure encoder exists (lazy initialization)
+    /// Build the Huffman O1 model on first use (shared by encoding and decoding)
+    fn ensure_huffman_encoder(&self) -> Result<()> {
         if self.huffman_encoder.borrow().is_none() {
             // Build encoder from training data (use dictionary as training data)
             let dict = self.dictionary.read()
@@ -1052,6 +1054,13 @@ impl DictZipBlobStore {
             let new_encoder = ContextualHuffmanEncoder::new(training_data, crate::entropy::huffman::HuffmanOrder::Order1)?;
             *self.huffman_encoder.borrow_mut() = Some(new_encoder);
         }
+        Ok(())
+    }
+
+    /// Apply Huffman O1 encoding with configured interleaving
+    fn apply_huffman_o1_encoding(&self, data: &[u8]) -> Result<Vec<u8>> {
+        // Ensure encoder exists (lazy initialization)
+        self.ensure_huffman_encoder()?;
 
         // Get a clone of the encoder for use
         let binding = self.huffman_encoder.borrow();
@@ -1119,25 +1128,26 @@ impl DictZipBlobStore {
 
     /// Decode Huffman O1 encoded data with configured interleaving
     fn decode_huffman_o1(&self, data: &[u8], original_size: usize) -> Result<Vec<u8>> {
-        // Get or build decoder (lazy initialization)
-        if self.huffman_decoder.borrow().is_none() {
-            // Build decoder from encoder - first build encoder
-            let dict = self.dictionary.read()
-                .map_err(|_| ZiporaError::resource_busy("Dictionary read lock"))?;
+        // The interleaved decoders live on the encoder (same model, lazy initialization)
+        self.ensure_huffman_encoder()?;
 
-            let training_data = dict.data();
-            let encoder = ContextualHuffmanEncoder::new(training_data, crate::entropy::huffman::HuffmanOrder::Order1)?;
-            let new_decoder = ContextualHuffmanDecoder::new(encoder);
-            *self.huffman_decoder.borrow_mut() = Some(new_decoder);
+        let binding = self.huffman_encoder.borrow();
+        let encoder = binding.as_ref().unwrap();
+
+        // Mirror of apply_huffman_o1_encoding: the stream layout depends on the
+        // interleaving factor the data was encoded with
+        match self.config.entropy_interleaved {
+            0 | 1 => encoder.decode_x1(data, original_size),
+            2 => encoder.decode_x2(data, original_size),
+            4 => encoder.decode_x4(data, original_size),
+            8 => encoder.decode_x8(data, original_size),
+            _ => {
+                Err(ZiporaError::Configuration {
+                    message: format!("Invalid interleaving factor: {}",
+                                   self.config.entropy_interleaved)
+                })
+            }
         }
-
-        // Get decoder clone for use
-        let binding = self.huffman_decoder.borrow();
-        let decoder = binding.as_ref().unwrap().clone();
-
-        // The decoder's decode method already handles the encoding format
-        // The interleaving is determined by how the data was encoded
-        decoder.decode(data, original_size)
     }
 
     /// Decode FSE encoded data
@@ -1169,7 +1179,7 @@ impl BlobStore for DictZipBlobStore {
         // Step 1: Decode entropy encoding (if any)
         let dict_compressed = self.decode_entropy(
             &blob.compressed_data,
-            blob.original_size,
+            blob.entropy_input_size,
             blob.entropy_algorithm
         )?;
 
@@ -1213,6 +1223,7 @@ impl BlobStore for DictZipBlobStore {
                 .map_err(|e| ZiporaError::invalid_data(&format!("Compression failed: {}", e)))?;
 
             // Step 2: Apply entropy encoding (if configured)
+            let entropy_input_size = dict_compressed.len();
             let (final_compressed, entropy_algorithm) = if self.config.entropy_algorithm != EntropyAlgorithm::None {
                 let entropy_encoded = self.apply_entropy_encoding(&dict_compressed)?;
 
@@ -1241,6 +1252,7 @@ impl BlobStore for DictZipBlobStore {
                     is_compressed: true,
                     compression_ratio,
                     entropy_algorithm,
+                    entropy_input_size,
                 }
             } else {
                 // Store uncompressed if compression doesn't help
@@ -1250,6 +1262,7 @@ impl BlobStore for DictZipBlobStore {
                     is_compressed: false,
                     compression_ratio: 1.0,
                     entropy_algorithm: EntropyAlgorithm::None,
+                    entropy_input_size: original_size,
                 }
             }
         } else {
@@ -1260,6 +1273,7 @@ impl BlobStore for DictZipBlobStore {
                 is_compressed: false,
                 compression_ratio: 1.0,
                 entropy_algorithm: EntropyAlgorithm::None,
+                entropy_input_size: original_size,
             }
         };
 
